@@ -483,8 +483,97 @@ static bool on_stuck(std::string& key, std::string& what, std::string& wit) {
 }
 
 // ------------------------------------------------------------------ main
+
+// ---------------------------------------------------------------- fan-out section (buffered channel, one vCPU)
+// N receivers each take exactly ONE value per round and then wait for the next round; the sender pushes a burst
+// of N values back to back and sends nothing more until all N have been received (demand driven). "A blocked
+// receiver is released as soon as an item exists": if some receivers stay blocked in recv() while size() > 0 and
+// nobody will send again, the supervisor proves it from the ledger.
+namespace fanout {
+static photon::channel<uint64_t>* ch = nullptr;
+static std::atomic<int> blocked{0}, got_this_round{0}, round_no{0};
+static std::atomic<bool> stop{false};
+static vh::NamedCounter c_rounds("fanout_rounds"), c_values("fanout_values");
+static std::atomic<uint64_t> seen_mask{0};
+static void* receiver(void*) {
+    int my_round = 0;
+    while (!stop.load(std::memory_order_acquire)) {
+        while (round_no.load(std::memory_order_acquire) == my_round && !stop.load(std::memory_order_acquire)) photon::thread_usleep(50);
+        if (stop.load(std::memory_order_acquire)) break;
+        my_round = round_no.load(std::memory_order_acquire);
+        uint64_t v = 0;
+        blocked.fetch_add(1, vh::MO);
+        bool ok = ch->recv(v);
+        blocked.fetch_sub(1, vh::MO);
+        if (!ok) { if (!stop.load()) vh::violation("buffered/recv-false-without-cause:one-vcpu", "recv() returned false although the channel is open and no timeout was given", "null"); break; }
+        uint64_t bit = 1ull << (v & 63);
+        if (seen_mask.fetch_or(bit, vh::MO) & bit)
+            vh::violation("buffered/duplicate:one-vcpu", "one value was received twice", vh::JObj().kv("value", v).str());
+        got_this_round.fetch_add(1, std::memory_order_acq_rel);
+        vh::event(); vh::progress();
+    }
+    return nullptr;
+}
+static int run(vh::Rng& r) {
+    int N = r.range(2, 6);
+    size_t cap = r.pick<size_t>({2, 4, 8, 16});
+    uint64_t rounds = vh::args().thorough() ? 3000 : 600;
+    vh::config("cls", "buffered-fanout"); vh::config("receivers", N); vh::config("cap", (int64_t)cap); vh::config("vcpus", 1);
+    photon::vcpu_init();
+    ch = new photon::channel<uint64_t>(cap);
+    vh::start_supervisor([](std::string& k, std::string& w, std::string& wit) {
+        int b = blocked.load();
+        size_t sz = ch->size();
+        wit = vh::JObj().kv("receivers_blocked_in_recv", b).kv("size", (uint64_t)sz).kv("received_this_round", got_this_round.load()).str();
+        if (b > 0 && sz > 0) {
+            k = "buffered/lost-wakeup:receiver-blocked-with-items:one-vcpu";
+            w = "receivers stay blocked in recv() although the buffer holds items and no further send is coming";
+            return true;
+        }
+        k = "chan-fanout"; w = "fan-out round made no progress";
+        return false;
+    });
+    std::vector<photon::join_handle*> jh;
+    for (int i = 0; i < N; ++i) jh.push_back(photon::thread_enable_join(photon::thread_create(receiver, nullptr, 128 * 1024)));
+    for (uint64_t rd = 0; rd < rounds; ++rd) {
+        int burst = std::min<int>(N, (int)cap);
+        seen_mask.store(0, vh::MO);
+        got_this_round.store(0, std::memory_order_release);
+        round_no.fetch_add(1, std::memory_order_acq_rel);
+        // let the receivers block first (most rounds), then push the burst without yielding in between
+        if (!r.chance(1, 8)) while (blocked.load(vh::MO) < burst) photon::thread_usleep(30);
+        bool use_try = r.chance(1, 2);
+        for (int i = 0; i < burst; ++i) {
+            bool ok = use_try ? ch->try_send((uint64_t)i) : ch->send((uint64_t)i);
+            if (!ok) { if (use_try) ok = ch->send((uint64_t)i); }
+            if (!ok) vh::violation("buffered/send-false-without-cause:one-vcpu", "send() returned false on an open channel without timeout", "null");
+            c_values.add();
+        }
+        // receivers beyond the burst (cap < N) get their value in a second wave once there is room
+        for (int i = burst; i < N; ++i) { if (!ch->send((uint64_t)i)) vh::violation("buffered/send-false-without-cause:one-vcpu", "send() returned false", "null"); c_values.add(); }
+        while (got_this_round.load(std::memory_order_acquire) < N) photon::thread_usleep(30);      // the supervisor watches this
+        c_rounds.add();
+    }
+    stop.store(true, std::memory_order_release);
+    ch->close();
+    for (auto h : jh) photon::thread_join(h);
+    delete ch;
+    photon::vcpu_fini();
+    vh::set_sig("fanout|n" + std::to_string(N) + "|cap" + std::to_string(cap), c_rounds.get() > 0);
+    vh::sample(vh::JObj().kv("cls", "buffered-fanout").kv("receivers", N).kv("cap", (int64_t)cap).kv("rounds", c_rounds.get()).str());
+    return vh::finish();
+}
+}  // namespace fanout
+
 int main(int argc, char** argv) {
     vh::init(argc, argv);
+    {
+        auto& A0 = vh::args();
+        if (A0.has("cls") ? A0.gets("cls", "") == "fanout" : (A0.exec % 16 == 5)) {
+            vh::Rng r0(A0.xseed());
+            return fanout::run(r0);
+        }
+    }
     auto& A = vh::args();
     vh::Rng r(A.xseed());
     static const int cls_of_exec[8] = {CLS_UNBUF_1S, CLS_BUF, CLS_UNBUF_MS, CLS_BUF, CLS_UNBUF_1S, CLS_BUF, CLS_UNBUF_TRY, CLS_BUF};
